@@ -37,7 +37,7 @@ finally:
 out = os.path.join(HERE, "preserving", a.name)
 os.makedirs(out, exist_ok=True)
 for f in ("patch.diff", "demo.py", "notes.md"):
-    if os.path.exists(os.path.join(a.src, f)):
+    if os.path.exists(os.path.join(a.src, f)) and os.path.abspath(os.path.join(a.src, f)) != os.path.abspath(os.path.join(out, f)):
         shutil.copy(os.path.join(a.src, f), os.path.join(out, f))
 json.dump(meta, open(os.path.join(out, "meta.json"), "w"), indent=1)
 print(a.name, "demo", meta.get("demo_unchanged_rc"), meta.get("demo_patched_rc"))
